@@ -497,6 +497,140 @@ fn check_update_invariants(rep: &Report, s: &Setup, p: &Psbt, i: usize, pairname
     let _ = SigVer::Base;
 }
 
+/// Updating OUTPUTS from a descriptor: for every family member a transaction paying to it; the
+/// recorded scripts hash to the output's scriptPubKey, key origins are those of the descriptor's
+/// keys, the taproot fields describe the descriptor's tree; an output paying elsewhere is refused
+/// and left alone; the `_unchecked` trait methods record exactly the same fields as the checked
+/// entry points (inputs and outputs).
+fn output_updates(rep: &Report, cen: &mut Census) {
+    use miniscript::psbt::{PsbtInputExt, PsbtOutputExt};
+    for (name, d) in family() {
+        let c = match prepare(&d, KeyForm::Compressed) {
+            Ok(c) => c,
+            Err(_) => continue,
+        };
+        let mut viol = |class: &str, what: String| {
+            rep.violation(Violation {
+                key: format!("C14|output-update-{}|{}", class, name),
+                class: format!("output-update-{}-{}", class, c.kind()),
+                what,
+                case: json!({"member": name, "descriptor": c.desc.to_string()}),
+            });
+        };
+        let tx = Transaction {
+            version: bitcoin::transaction::Version(2),
+            lock_time: LockTime::ZERO,
+            input: vec![TxIn { previous_output: OutPoint { txid: Txid::from_byte_array([0x77; 32]), vout: 0 }, script_sig: ScriptBuf::new(), sequence: Sequence::MAX, witness: Witness::new() }],
+            output: vec![TxOut { value: Amount::from_sat(1000), script_pubkey: c.spk.clone() }, TxOut { value: Amount::from_sat(1000), script_pubkey: ScriptBuf::from_bytes(vec![0x51]) }],
+        };
+        let p0 = match Psbt::from_unsigned_tx(tx) {
+            Ok(p) => p,
+            Err(_) => continue,
+        };
+        bump(cen, "output_updates");
+        let mut p = p0.clone();
+        match guard(|| p.update_output_with_descriptor(0, &c.desc)) {
+            Ok(Ok(())) => {}
+            Ok(Err(e)) => {
+                viol("refused", format!("update_output_with_descriptor refuses the descriptor's own output: {:?}", e));
+                continue;
+            }
+            Err(pn) => {
+                viol("panics", pn);
+                continue;
+            }
+        }
+        let out = &p.outputs[0];
+        let scripts_ok = match &c.d {
+            D::Wsh(_) => out.witness_script.as_ref().map(|w| w.to_p2wsh()) == Some(c.spk.clone()) && out.redeem_script.is_none(),
+            D::ShWsh(_) => out.witness_script.as_ref().map(|w| w.to_p2wsh()) == out.redeem_script.clone() && out.redeem_script.as_ref().map(|r| r.to_p2sh()) == Some(c.spk.clone()),
+            D::Sh(_) | D::ShWpkh(_) => out.redeem_script.as_ref().map(|r| r.to_p2sh()) == Some(c.spk.clone()) && out.witness_script.is_none(),
+            _ => out.witness_script.is_none() && out.redeem_script.is_none(),
+        };
+        if !scripts_ok {
+            viol("scripts", "the scripts recorded for the output do not hash to its scriptPubKey".into());
+        }
+        if let D::Tr(ik, leaves) = &c.d {
+            if out.tap_internal_key != Some(key(ik).xonly) {
+                viol("tap_internal_key", "tap_internal_key differs from the descriptor's internal key".into());
+            }
+            let want: Vec<(u8, Vec<u8>)> = c.tap_leaves().iter().zip(leaves.iter()).map(|(l, (dp, _))| (*dp, l.1.clone())).collect();
+            let got: Option<Vec<(u8, Vec<u8>)>> = out.tap_tree.as_ref().map(|t| t.script_leaves().map(|l| (l.merkle_branch().len() as u8, l.script().as_bytes().to_vec())).collect());
+            // (rust-bitcoin orders the two children of a branch by hash: siblings may come out swapped, which
+            // BIP341 does not distinguish - the multiset of (depth, script) and the merkle root decide)
+            let mut want_sorted = want.clone();
+            want_sorted.sort();
+            let got_sorted = got.clone().map(|mut g| {
+                g.sort();
+                g
+            });
+            let root_ok = out.tap_tree.as_ref().map(|t| Some(t.root_hash().to_byte_array()) == crate::world::ref_merkle_root(&c.tap_leaves())).unwrap_or(true);
+            if leaves.is_empty() != got.is_none() || got_sorted.map(|g| g != want_sorted).unwrap_or(false) || !root_ok {
+                viol("tap_tree", "the recorded tap_tree is not the descriptor's script tree (leaf scripts with their depths, merkle root)".into());
+            }
+            for kl in &c.keys {
+                let k = key(kl);
+                if out.tap_key_origins.get(&k.xonly).map(|(_, (fp, _))| *fp) != Some(k.fingerprint) {
+                    viol("tap_key_origins", format!("origin of {} missing or wrong", kl));
+                }
+            }
+        } else {
+            if out.tap_internal_key.is_some() || out.tap_tree.is_some() || !out.tap_key_origins.is_empty() {
+                viol("taproot-fields-on-other-output", "taproot fields recorded for a non-taproot output".into());
+            }
+            for kl in &c.keys {
+                let k = key(kl);
+                if out.bip32_derivation.get(&k.pk).map(|(fp, _)| *fp) != Some(k.fingerprint) {
+                    viol("bip32_derivation", format!("origin of {} missing or wrong", kl));
+                }
+            }
+        }
+        // the other output pays elsewhere: refused, untouched
+        let mut q = p0.clone();
+        match guard(|| q.update_output_with_descriptor(1, &c.desc)) {
+            Ok(Err(_)) => {
+                if q.serialize() != p0.serialize() {
+                    // (recording fields of a descriptor the output does not pay to would mislead a signer)
+                    viol("refused-but-altered", "a refused output update changed the PSBT".into());
+                } else {
+                    bump(cen, "foreign_outputs_refused");
+                }
+            }
+            Ok(Ok(())) => viol("foreign-output-accepted", "an output paying to another script was updated from the descriptor".into()),
+            Err(pn) => viol("panics", pn),
+        }
+        // the unchecked trait methods record the same fields
+        let mut o2 = p0.outputs[0].clone();
+        match guard(|| PsbtOutputExt::update_with_descriptor_unchecked(&mut o2, &c.desc).map(|d| d.script_pubkey())) {
+            Ok(Ok(spk)) => {
+                if o2 != p.outputs[0] || spk != c.spk {
+                    viol("unchecked-differs", "PsbtOutputExt::update_with_descriptor_unchecked records other fields (or returns another descriptor) than update_output_with_descriptor".into());
+                } else {
+                    bump(cen, "unchecked_output_updates_equal");
+                }
+            }
+            _ => viol("unchecked-fails", "PsbtOutputExt::update_with_descriptor_unchecked failed".into()),
+        }
+        // inputs: the same comparison (the utxo fields are not touched by either)
+        let mut pin = p0.clone();
+        pin.inputs[0].witness_utxo = Some(TxOut { value: Amount::from_sat(5000), script_pubkey: c.spk.clone() });
+        let mut i2 = pin.inputs[0].clone();
+        let legacy = matches!(c.d, D::Pkh(_) | D::Sh(_) | D::Bare(_));
+        if !legacy {
+            match (guard(|| pin.update_input_with_descriptor(0, &c.desc)), guard(|| PsbtInputExt::update_with_descriptor_unchecked(&mut i2, &c.desc).map(|d| d.script_pubkey()))) {
+                (Ok(Ok(())), Ok(Ok(spk))) => {
+                    if i2 != pin.inputs[0] || spk != c.spk {
+                        viol("unchecked-input-differs", "PsbtInputExt::update_with_descriptor_unchecked records other fields than update_input_with_descriptor".into());
+                    } else {
+                        bump(cen, "unchecked_input_updates_equal");
+                    }
+                }
+                (a, b) => viol("unchecked-input-fails", format!("checked ok = {:?}, unchecked ok = {:?}", a.map(|x| x.is_ok()), b.map(|x| x.is_ok()))),
+            }
+        }
+    }
+}
+
 /// A few fully populated states of a pair (used by C11 as mutation seeds).
 pub fn reachable_full_states(pair: &[D; 2]) -> (Vec<Psbt>, Vec<String>) {
     let p2 = [relabel(&pair[0], 0), relabel(&pair[1], 1)];
@@ -1003,6 +1137,11 @@ pub fn run(tier: Tier) -> i32 {
     let stale = TxCfg { name: "stale-signatures", ..CFG_DEFAULT };
     for (a, b) in [("wpkh", "tr-key"), ("tr-1leaf", "wsh-multi"), ("tr-3leaves", "sh-wpkh"), ("pkh", "wsh-or-malleable")] {
         jobs.push((format!("{}+{}@stale-signatures", a, b), [relabel(&fam[idx(a)].1, 0), relabel(&fam[idx(b)].1, 1)], depth.min(6), stale));
+    }
+    {
+        let mut c = Census::new();
+        output_updates(&rep, &mut c);
+        rep.merge_counts(&c);
     }
     // inputs whose outpoint names an index the funding transaction does not have
     let forged_vout = TxCfg { name: "forged-vout", ..CFG_DEFAULT };
